@@ -1,6 +1,7 @@
 """C12 — HTTP/2 streams are isolated, bounded and cannot wedge each other."""
 from __future__ import annotations
 
+import connlife
 import core
 import h2b1
 import h2x
@@ -11,8 +12,9 @@ MODULE = "HttpcoreModel.Props.C12"
 THEOREMS = [f"Httpcore.C12.{n}" for n in ("slot_accounting", "open_within_limit", "open_success", "settings_limit", "one_before_settings",
                                            "debt_only_from_lowering", "no_wedge", "settings_never_blocks", "slot_available_when_idle",
                                            "wedge_reachable_107", "own_stream_only", "interleaving_independent",
-                                           "slot_before_stream_id", "settings_change_modelled")]
+                                           "slot_before_stream_id", "settings_change_modelled")] + ["Httpcore.LifeProps.h2_in_use_never_idle", "Httpcore.LifeProps.h2_in_use_never_expires", "Httpcore.LifeProps.h2_in_use_view", "Httpcore.LifeProps.source_releases_starting", "Httpcore.LifeProps.idle_with_stream_107"]
 TRUSTED = [
+    'life-cycle of the connection objects (ConnLife.lean): gate, _response_closed, aclose and the status predicates are *translated* from http11.py / http2.py on every run (harness/lifetrans.py -> Gen.h1*/Gen.h2*); the remaining steps (stream opened / request backed out / GOAWAY / I/O failure recorded) are hand-written and tied by lock-step: instrumented sub-classes log every life-cycle event of the real objects and the Lean driver replays the log (harness/connlife.py, this run)',
     "Lean 4.33 kernel; axioms per theorem under coverage.theorems",
     "hand-written model H2.Slots / H2.route (lean/HttpcoreModel/H2.lean); constants (initial limit 1, local cap 100), the order 'slot before stream id' "
     "and the shape of _receive_remote_settings_change are regenerated / recognised from the source by harness/extract.py on every run (Tie A)",
@@ -92,6 +94,8 @@ def run(ctx, driver):
     h2x.explore(ctx, rec, ID, PROFILES["coalesce"], 120, 3000, WANT)
     h2x.explore(ctx, rec, ID, PROFILES["one"], 40, 800, WANT)
     h2x.explore(ctx, rec, ID, PROFILES["down"], 40, 800, WANT)
+    # ---- life-cycle: a connection with requests in flight is never idle / expiring (F-C12-e) --------------------------------
+    connlife.run(rec, driver, rng, (400 if ctx.quick else 6000) * (4 if ctx.broken else 1), 0, "C12")
     # ---- an abandoned response must not starve the streams that follow it -----------------------------------------------
     for size in ([17_000_000] if ctx.quick else [100_000, 17_000_000, 40_000_000]):
         outcome, got, errs = h2b1.run_big_download(total=1000, abandon_first=size)
